@@ -407,7 +407,9 @@ impl USim {
     }
 
     fn key(&self) -> String {
-        let mut s = format!("{}|o={}|", self.uplinks.verif_key(), self.outstanding.is_some());
+        // the lane the remote's sender is labelled with is state of its own: whoever writes next without
+        // relabelling it sends under that name
+        let mut s = format!("{}|o={:?}|", self.uplinks.verif_key(), self.outstanding.as_ref().map(|(sender, _)| sender.lane.clone()));
         for r in &self.lanes {
             let n = r.session;
             let en = r.emitted_session;
